@@ -25,6 +25,7 @@
 #include "indent.h"
 
 #include <algorithm>
+#include <set>
 
 using std::string;
 
@@ -538,6 +539,14 @@ substitute_decl(CPPDeclaration::SubstDecl &subst,
     return top;
   }
 
+  // The initializer may refer to the very variable it initializes, as in
+  // "template<class T> constexpr T x = x;", which would bring us back here
+  // for the same instance without end.
+  static std::set<const CPPInstance *> in_progress;
+  if (!in_progress.insert(this).second) {
+    return this;
+  }
+
   CPPInstance *rep = new CPPInstance(*this);
   CPPDeclaration *new_type =
     _type->substitute_decl(subst, current_scope, global_scope);
@@ -552,6 +561,8 @@ substitute_decl(CPPDeclaration::SubstDecl &subst,
       _initializer->substitute_decl(subst, current_scope, global_scope)
       ->as_expression();
   }
+
+  in_progress.erase(this);
 
   if (rep->_type == _type &&
       rep->_initializer == _initializer) {
